@@ -104,6 +104,9 @@ func (p *Subscribe) Unpack(r io.Reader) (err error) {
 	if err != nil {
 		return err
 	}
+	if p.PacketID == 0 { // [MQTT-2.2.1-3]
+		return codes.ErrProtocol
+	}
 	if p.Version == Version5 {
 		p.Properties = &Properties{}
 		if err := p.Properties.Unpack(bufr, SUBSCRIBE); err != nil {
